@@ -169,3 +169,19 @@ def deep(n=4):
         chain = tuple(cs[(k + 5 * j) % len(cs)] for j in range(n))
         for it in sorted(ITEMS):
             yield (chain, (it,))
+
+
+def random_deep(seed, n, max_containers=5, max_items=3):
+    """n seeded random programs: 3..max_containers containers deep, 1..max_items items in the hole"""
+    import random
+    rng = random.Random(seed)
+    cs, its = sorted(CONTAINERS), sorted(ITEMS)
+    out = []
+    guard = 0
+    while len(out) < n and guard < 50 * n:
+        guard += 1
+        chain = tuple(rng.choice(cs) for _ in range(rng.randint(3, max_containers)))
+        items = tuple(rng.choice(its) for _ in range(rng.randint(1, max_items)))
+        if build(chain, items) is not None:
+            out.append((chain, items))
+    return out
